@@ -320,7 +320,7 @@ Definition app_step (c : cfg) (s : state) (tick : bool) (orders : list (list N))
         | FNew =>
             match pol_add orders (s_est s) (s_pol s) (s_met s) (it_key i) (it_cost i) with
             | AddOutOfFuel => None
-            | AddOk victims added p m _ =>
+            | AddOk victims added p m _ _ =>
                 let s1 := with_pol s p m in
                 if added then Some (with_app s1 (ANewSet i victims) [])
                 else Some (with_app s1 (AVict victims) (reject_cbs (it_key i) (it_conf i) (it_val i) (it_cost i)))
